@@ -825,8 +825,9 @@ def compare_topologies(base, var, variant, argv):
         if all(b['dummy'] for b in bad_coords):
             diffs.append(('coords-charge-dummy', {'n': len(bad_coords), 'first': bad_coords[0]}))
         else:
-            diffs.append(('coords', {'n': len(bad_coords), 'first': [b for b in bad_coords if not b['dummy']][0],
-                                     'bad': [b for b in bad_coords if not b['dummy']][:60]}))
+            plain = [b for b in bad_coords if not b['dummy']]
+            diffs.append(('coords', {'n': len(plain), 'first': plain[0], 'bad': plain[:60],
+                                     'charge_dummies_also': len(bad_coords) - len(plain)}))
     return diffs
 
 
